@@ -112,12 +112,14 @@ def _g_stage(ctx):
         goals.append((f"update{n}.keyed-by-stage-id", z3.BoolVal(d.get("pinned", False)) if not d.get("pinned") else d["key"] == key))
         if not d.get("pinned"):
             continue
-        hit = d["hit"]
-        goals.append((f"update{n}.guarded-by-version", z3.Implies(hit, z3.Select(ent.col("version"), key) == ctx.extra["entry_version"])))
+        # the guard must sit in the statement's own WHERE: it is evaluated over an ARBITRARY table state (d["any_tab"]), not the
+        # one an earlier SELECT of this call saw -- other transactions may commit between two statements of a connection
+        hit, anyt = d["hit_any"], d["any_tab"]
+        goals.append((f"update{n}.guarded-by-version", z3.Implies(hit, z3.Select(anyt.cols["version"], key) == ctx.extra["entry_version"])))
         exp = ctx.args.get("expected_phase")
         if exp is not None:
             given = z3.Not(I.ops.is_none(exp))
-            goals.append((f"update{n}.guarded-by-phase", z3.Implies(z3.And(hit, given), z3.Select(ent.col("status"), key) == I.ops.strip_opt(exp).t)))
+            goals.append((f"update{n}.guarded-by-phase", z3.Implies(z3.And(hit, given), z3.Select(anyt.cols["status"], key) == I.ops.strip_opt(exp).t)))
         sets = d["sets"]
         goals.append((f"update{n}.bumps-version", z3.BoolVal("version" in sets) if "version" not in sets else
                       sets["version"][0] == z3.Select(ent.col("version"), key) + 1))
@@ -324,7 +326,10 @@ def _poll_one_post(ctx):
     r = u["key"]
     hit = u["hit"]
     now_terms = [t for t in [I.st.ghost.get("clock")] if t is not None]
-    goals.append(("claim-guarded-by-selected-version", z3.Implies(hit, z3.Select(ent.col("version"), r) == z3.Select(ent.col("version"), r))))
+    # the claim UPDATE itself re-checks the version the SELECT saw (over an arbitrary table state: another worker may have claimed
+    # the row between the two statements) and that the row is still there
+    goals.append(("claim-guarded-by-selected-version", z3.Implies(u["hit_any"], z3.And(z3.Select(u["any_tab"].exists, r),
+                  z3.Select(u["any_tab"].cols["version"], r) == z3.Select(ent.col("version"), r)))))
     sets = u["sets"]
     for c in ("locked_until", "attempts", "version"):
         goals.append((f"claim-sets-{c}", z3.BoolVal(c in sets)))
@@ -766,7 +771,9 @@ def _claim_post(ctx):
     for n, e in enumerate(sql_effects(ctx, "update", "stage_claims")):
         d = e.data
         goals.append((f"update{n}.keyed-and-guarded-by-old-owner", z3.BoolVal(bool(d.get("pinned"))) if not d.get("pinned") else
-                      z3.Implies(d["hit"], z3.Select(ent.col("stage_id"), key) == owner0)))
+                      # the take-over statement itself re-checks the owner that was read (arbitrary table state: the owner may have
+                      # changed between the look-up and the UPDATE)
+                      z3.Implies(d["hit_any"], z3.Select(d["any_tab"].cols["stage_id"], key) == owner0)))
     return goals
 
 
@@ -1543,7 +1550,7 @@ def _upsert_post(ctx):
     for n, e in enumerate(sql_effects(ctx, "update", "task_executions")):
         d = e.data
         goals.append((f"update{n}.keyed-and-guarded", z3.BoolVal(bool(d.get("pinned"))) if not d.get("pinned") else
-                      z3.And(d["key"] == key, z3.Implies(d["hit"], z3.Select(ent.col("version"), key) == v0))))
+                      z3.And(d["key"] == key, z3.Implies(d["hit_any"], z3.Select(d["any_tab"].cols["version"], key) == v0))))  # guard in the statement itself
         if d.get("pinned"):
             goals.append((f"update{n}.bumps-version", z3.BoolVal("version" in d["sets"]) if "version" not in d["sets"] else
                           d["sets"]["version"][0] == z3.Select(ent.col("version"), key) + 1))
